@@ -255,11 +255,14 @@ func VerifC18Depth() {
 
 // VerifC18Sdf: adding / stripping the @setDataFrame prefix preserves the remaining bytes.
 func VerifC18Sdf() {
-	withPrefix := vrt.Param("prefix") == 1
+	withPrefix := vrt.Param("prefix") >= 1
 	tail := vrt.Bytes("tail", vrt.Param("tail"))
 	var in []byte
-	if withPrefix {
+	if vrt.Param("prefix") == 1 {
 		in = refAmfString(nil, "@setDataFrame")
+	} else if vrt.Param("prefix") == 2 {
+		// the same string in AMF0 long-string form (0x0c + 32-bit length), which lal's reader accepts as a string
+		in = append([]byte{0x0c, 0, 0, 0, 13}, "@setDataFrame"...)
 	}
 	in = append(in, tail...)
 	snapshot := append([]byte{}, in...)
